@@ -78,26 +78,37 @@ def argmaxNat : List Nat → Nat
     let k := argmaxNat xs
     if xs.isEmpty then 0 else if xs.getD k 0 > x then k + 1 else 0
 
+/-- the loop of `scan_header` over all lines -/
+def scanFold (lines : List String) (delims comments : List Char) (nScan : Nat) : ScanState :=
+  lines.foldl (scanStep delims comments nScan) ⟨0, comments.headD '#', [], []⟩
+
+/-- column k of the counts: the counts of candidate k over the scanned rows -/
+def colOf (counts : List (List Nat)) (k : Nat) : List Nat := counts.map (·.getD k 0)
+
+def totalCol (counts : List (List Nat)) (k : Nat) : Nat := (colOf counts k).foldl (· + ·) 0
+
+/-- `mean > 0` and `std == 0`: at least one row, a positive total, the same count on every row -/
+def consistentCol (counts : List (List Nat)) (k : Nat) : Bool :=
+  !counts.isEmpty && decide (0 < totalCol counts k) && (colOf counts k).all (fun c => c = (colOf counts k).headD 0)
+
+/-- the index of the guessed delimiter: the only candidate whose count is positive and the same on every scanned
+    row (`mean > 0` and `std == 0`), else the first maximum of the mean counts.
+    `counts` = per scanned row, the count of every candidate. -/
+def chooseDelimiter (nDelims : Nat) (counts : List (List Nat)) : Nat :=
+  match (List.range nDelims).filter (consistentCol counts) with
+  | [k] => k
+  | _ => if counts.isEmpty then 0 else argmaxNat ((List.range nDelims).map (totalCol counts))
+
+/-- `length == {2} or length == {3}` over the scanned rows split at the guessed delimiter -/
+def layoutOf (d : Char) (rows : List String) : Layout :=
+  let lens := rows.map fun r => (splitAt d r).length
+  if !rows.isEmpty && (lens.all (· = 2) || lens.all (· = 3)) then .edgeList else .adjacencyList
+
 /-- `scan_header(file_path, delimiters, comments, n_scan)`; `delims` are the candidate delimiters in order -/
 def scanHeader (lines : List String) (delims comments : List Char) (nScan : Nat := 100) : Scan :=
-  let st := lines.foldl (scanStep delims comments nScan) ⟨0, comments.headD '#', [], []⟩
-  let rows := st.rows.reverse
-  let counts := st.counts.reverse
-  -- column k of the counts: the counts of delimiter k over the scanned rows
-  let col (k : Nat) : List Nat := counts.map (·.getD k 0)
-  let total (k : Nat) : Nat := (col k).foldl (· + ·) 0
-  -- mean > 0 and std == 0: at least one row, all counts equal and positive
-  let consistent (k : Nat) : Bool :=
-    !rows.isEmpty && decide (0 < total k) && (col k).all (fun c => c = (col k).headD 0)
-  let cands := (List.range delims.length).filter consistent
-  let k := match cands with
-    | [k] => k
-    | _ => if rows.isEmpty then 0 else argmaxNat ((List.range delims.length).map total)
-  let d := delims.getD k ' '
-  let lens := rows.map fun r => (splitAt d r).length
-  let layout := if !rows.isEmpty && (lens.all (· = 2) || lens.all (· = 3)) then Layout.edgeList
-                else Layout.adjacencyList
-  ⟨st.headerLength, d, st.comment, layout⟩
+  let st := scanFold lines delims comments nScan
+  let d := delims.getD (chooseDelimiter delims.length st.counts.reverse) ' '
+  ⟨st.headerLength, d, st.comment, layoutOf d st.rows.reverse⟩
 
 /-! ### `from_csv` -/
 
